@@ -140,6 +140,13 @@ class Registry:
         self.types.declare(name, t)
         return t
 
+    def mutrec(self, name, fields):
+        """mutable dict-shaped record with fixed string keys that lives *by value* inside maps / lists
+        (e.g. the edge records of the GEL store); see values.TMutRec"""
+        t = TMutRec(name, {k: self.types.parse(v) for k, v in fields.items()})
+        self.types.declare(name, t)
+        return t
+
     def optobj(self, name, inner):
         t = TOptObj(self.types.parse(inner))
         self.types.declare(name, t)
